@@ -27,6 +27,7 @@ type ScenarioStats struct {
 	Ops         int64            `json:"ops"`
 	NonTrivial  int64            `json:"nontrivial"`
 	Prefixes    int64            `json:"prefixes"`
+	Pruned      int64            `json:"pruned"`
 	MaxDepth    int              `json:"max_depth"`
 	Outcomes    map[string]int64 `json:"outcomes"`
 	Samples     []Sample         `json:"samples,omitempty"`
@@ -147,6 +148,14 @@ func (w *worker) explore(sc Scenario) {
 			}
 			if c.pos < len(c.path) {
 				c.path, c.arity = c.path[:c.pos], c.arity[:c.pos]
+			}
+		} else if res.pruned {
+			c.path, c.arity = c.path[:c.pos], c.arity[:c.pos]
+			st.Pruned++
+			newNodes := int64(c.pos - (backtrack + 1))
+			if newNodes > 0 {
+				st.States += newNodes
+				st.Transitions += newNodes
 			}
 		} else {
 			c.path, c.arity = c.path[:c.pos], c.arity[:c.pos]
@@ -283,16 +292,28 @@ func runWorker(p Property, tier string, idx, n int, deadline time.Time, out stri
 			}
 		}()
 		want := tier[:1]
+		var todo []Scenario
 		for _, sc := range p.Scenarios {
-			if !containsTier(sc.Tiers, want) {
-				continue
+			if containsTier(sc.Tiers, want) {
+				todo = append(todo, sc)
 			}
-			if time.Now().After(deadline) {
+		}
+		for i, sc := range todo {
+			now := time.Now()
+			if now.After(deadline) {
 				w.res.Scenarios = append(w.res.Scenarios, ScenarioStats{Name: sc.Name, Outcomes: map[string]int64{}})
 				continue
 			}
+			// a scenario may use its fair share of what is left, so that one that blows up
+			// (under a change that breaks the property) cannot starve the later ones
+			share := deadline.Sub(now) / time.Duration(len(todo)-i)
+			if min := 2 * time.Second; share < min {
+				share = min
+			}
+			w.deadline = now.Add(share)
 			w.explore(sc)
 		}
+		w.deadline = deadline
 	}()
 	w.res.WallS = time.Since(start).Seconds()
 	w.flush()
